@@ -34,7 +34,8 @@ let seq_of l = let s = seq_new () in List.iter (seq_add s) l; s
 
 let stname = function
   | BTreeSpec.SUCCESS -> "SUCCESS" | BTreeSpec.NO_MEM -> "NO_MEM" | BTreeSpec.NOT_FOUND -> "NOT_FOUND"
-  | BTreeSpec.EXISTS -> "EXISTS" | BTreeSpec.REACHED_END -> "REACHED_END" | BTreeSpec.OUT_OF_FUEL -> "OUT_OF_FUEL"
+  | BTreeSpec.EXISTS -> "EXISTS" | BTreeSpec.REACHED_END -> "REACHED_END" | BTreeSpec.OVERFLOW -> "OVERFLOW"
+  | BTreeSpec.OUT_OF_FUEL -> "OUT_OF_FUEL"
 
 let iter_str = function
   | BTreeModel.IEnd -> "end"
@@ -57,7 +58,7 @@ let () =
       let page = int_of_string page in
       let lv = (page - 8) / 8 - 1 in
       let iv = lv / 2 in
-      let ln = nat_of_int lv and inn = nat_of_int iv in
+      let ln = nat_of_int lv and inn = nat_of_int iv and hn = nat_of_int max_height in
       verbose := String.contains flags 'v';
       let c02 = String.contains flags '2' in
       let nospec = String.contains flags 'n' in (* bulk cases: model only, spec line '*' *)
@@ -95,7 +96,7 @@ let () =
         match op.[0] with
         | 'i' ->
           let e = Scanf.sscanf arg "%d.%d" (fun a b -> (a, b)) in
-          let (((_, t'), s'), _) = BTreeAllocModel.ainsert_op rank dflt ln inn !ast !atr e in
+          let (((_, t'), s'), _) = BTreeAllocModel.ainsert_op rank dflt ln inn hn !ast !atr e in
           atr := t'; ast := s'
         | 'r' ->
           let ((((_, _), t'), s'), _) = BTreeAllocModel.aremove_op rank dflt ln inn !ast !atr (int_of_string arg, -1) in
@@ -137,7 +138,7 @@ let () =
           | 'i' ->
             let (k, tg) = Scanf.sscanf arg "%d.%d" (fun a b -> (a, b)) in
             let e = (k, tg) in
-            let (((st, t'), o'), lg) = BTreeModel.insert rank dflt ln inn !oracle !t e in
+            let (((st, t'), o'), lg) = BTreeModel.insert rank dflt ln inn hn !oracle !t e in
             t := t'; oracle := o';
             Printf.bprintf mo "i:%s:%d " (stname st) (int_of_z (BTreeModel.btree_size t'));
             Printf.bprintf ms "%s " (log_str lg);
